@@ -33,23 +33,51 @@ ANCHORS = [
 ASSUMPTIONS = ["positive durations (property scope); later episodes are C12's business"]
 REQUIRED_COUNTERS = {"abandoned_episodes": 50, "states_checked": 1500, "final_all_removed_checks": 50,
                      "builder_disjunctive": 50, "builder_agent_task": 50,
-                     "builder_with_jobs": 50, "builder_complete": 50}
+                     "builder_with_jobs": 50, "builder_complete": 50, "builder_custom": 50}
 WORKERS = {"quick": 1, "thorough": 14}
 
 
 def gen_cases(ctx):
     rng = ctx.rng
-    names = ["disjunctive", "agent_task", "with_jobs", "complete"]
+    names = ["disjunctive", "agent_task", "with_jobs", "complete", "custom"]
     for i in range(ctx.scale(5000, 120000)):
         c = gen_history_case(rng, classes=gen.POSITIVE_CLASSES, max_jobs=rng.choice([2, 3, 4, 5]),
                              max_machines=rng.choice([2, 3, 4]), filters=False)
         c["filter"] = rng.choice([None, {"names": ["dominated_operations"], "form": "function"}])
-        c["builder"] = names[i % 4]
+        c["builder"] = names[i % 5]
+        if c["builder"] == "custom":
+            c["instance"] = gen.gen_instance(rng, rng.choice(["gap", "gap", "classic", "flexible", "recirc"]),
+                                             max_jobs=rng.choice([2, 3, 4]), max_machines=rng.choice([3, 4, 5]))
         c["rm_machines"] = rng.random() < 0.75
         c["rm_jobs"] = rng.random() < 0.75
         c["initial_reset"] = rng.random() < 0.3
         c["abandon_after"] = rng.choice([None, None, 1, 2, 3, rng.randint(1, 8)])
         yield c
+
+
+def custom_graph(instance, rng):
+    """A user-written agent-task style graph built with the public API only: job nodes first,
+    machine nodes in reverse order and only for machines that have operations."""
+    from job_shop_lib.graphs import JobShopGraph, Node, NodeType
+    from job_shop_lib.graphs import (add_operation_machine_edges, add_machine_machine_edges,
+                                     add_operation_job_edges)
+    g = JobShopGraph(instance)
+    job_ids = list(range(instance.num_jobs))
+    rng.shuffle(job_ids)
+    for j in job_ids:
+        g.add_node(Node(node_type=NodeType.JOB, job_id=j))
+    used = [m for m in range(instance.num_machines) if instance.operations_by_machine[m]]
+    for m in reversed(used):
+        g.add_node(Node(node_type=NodeType.MACHINE, machine_id=m))
+    add_operation_machine_edges(g)
+    add_machine_machine_edges(g)
+    add_operation_job_edges(g)
+    jobs = g.nodes_by_type[NodeType.JOB]
+    for a in jobs:
+        for b in jobs:
+            if a is not b:
+                g.add_edge(a, b)
+    return g
 
 
 def run_case(ctx, case):
@@ -59,7 +87,10 @@ def run_case(ctx, case):
     rng = random.Random(case["seed"])
     run = Run(case["instance"], case.get("filter"))
     d, r = run.d, run.r
-    g0 = builders()[case["builder"]](run.instance)
+    if case["builder"] == "custom":
+        g0 = custom_graph(run.instance, random.Random(case["seed"] + 5))
+    else:
+        g0 = builders()[case["builder"]](run.instance)
     kwargs = {}
     default = case["rm_machines"] and case["rm_jobs"]
     if not default or rng.random() < 0.5:
